@@ -10,7 +10,12 @@
      batch = B<n>:<adv><keep><hdr>:<odfi>:<svc>:<num>:<control>:[E<n>=<trace>,...]
 
    File, batch and entry pointers are renamed in order of first appearance in this line, so
-   two lines are equal iff the views are equal and the pointer graphs are isomorphic. *)
+   two lines are equal iff the views are equal and the pointer graphs are isomorphic.
+
+   With a second argument it also writes, per request line, the hypotheses of the theorems of
+   coq/Props/C17Share.v evaluated in the state the request meets:
+
+     k=<class> r=<sread_stored> t=<-|0|1: target stored and file_stable> wf=<wf_label> all=<all_stable> *)
 open Model
 open Conv
 open Convz
@@ -165,17 +170,27 @@ let show_snapshot (snap : (id * (n * (vfile * (n * n list) list))) list) : strin
   | [] -> "-"
   | _ -> String.concat " ; " (List.map show_file items)
 
+let sclass = function KNone -> "none" | KPure -> "pure" | KEdit -> "edit" | KCreate -> "create" | KDerive -> "derive"
+
 let () =
   let path = Sys.argv.(1) in
+  let chk = if Array.length Sys.argv > 2 then Some (open_out Sys.argv.(2)) else None in
+  let note l = match chk with Some oc -> output_string oc (l ^ "\n") | None -> () in
   let s = ref sinit in
   iter_lines path (fun line ->
     match split_ws line with
-    | ["S"] -> s := sinit; print_endline "S"
+    | ["S"] -> s := sinit; print_endline "S"; note "S"
     | w ->
       (match (try request_of w with Failure m -> prerr_endline (m ^ " in: " ^ line); None) with
-       | None -> print_endline "?"
+       | None -> print_endline "?"; note "?"
        | Some r ->
+         let t = match target r with
+           | None -> "-"
+           | Some i -> (match lookup !s.ss_store i with None -> "-" | Some p -> b2s (file_stable !s p)) in
+         note (Printf.sprintf "k=%s r=%s t=%s wf=%s all=%s" (sclass (rclass_of r)) (b2s (sread_stored r)) t
+                 (b2s (wf_label !s r)) (b2s (all_stable !s)));
          let (s', SResp (c, st)) = sstep !s r in
          s := s';
          let nf = match c with NotFound -> int_of_n st | _ -> 0 in
-         Printf.printf "nf=%d\t%s\n" nf (show_snapshot (snapshot s'))))
+         Printf.printf "nf=%d\t%s\n" nf (show_snapshot (snapshot s'))));
+  match chk with Some oc -> close_out oc | None -> ()
